@@ -21,13 +21,19 @@ const maxUe = uint64(1)<<57 - 2
 
 var errSink = errors.New("sink full")
 
-// failAt accepts `left` bytes in total (left < 0: unlimited), then every Write fails.
+// failAt accepts `left` bytes in total (left < 0: unlimited), then every Write fails; with once set only the first
+// refused Write fails and later ones are accepted again (a writer that keeps its first error never gets that far).
 type failAt struct {
 	buf  []byte
 	left int
+	once bool
 }
 
 func (f *failAt) Write(p []byte) (int, error) {
+	if f.left == 0 && f.once {
+		f.left = -1
+		return 0, errSink
+	}
 	if f.left < 0 {
 		f.buf = append(f.buf, p...)
 		return len(p), nil
@@ -93,7 +99,11 @@ func applyEBSPOp(w *bits.EBSPWriter, o wop) {
 
 // runEBSPX: bytes that reached the sink, per-op trace v/n/err, final error
 func runEBSPX(capacity int, ops []wop) ([]byte, string, error) {
-	sink := &failAt{left: capacity}
+	return runEBSPXOnce(capacity, ops, false)
+}
+
+func runEBSPXOnce(capacity int, ops []wop, once bool) ([]byte, string, error) {
+	sink := &failAt{left: capacity, once: once}
 	w := bits.NewEBSPWriter(sink)
 	tr := make([]string, 0, len(ops))
 	for _, o := range ops {
@@ -113,7 +123,11 @@ func runEBSPX(capacity int, ops []wop) ([]byte, string, error) {
 }
 
 func runPlainX(capacity int, ops []wop) ([]byte, string, error) {
-	sink := &failAt{left: capacity}
+	return runPlainXOnce(capacity, ops, false)
+}
+
+func runPlainXOnce(capacity int, ops []wop, once bool) ([]byte, string, error) {
+	sink := &failAt{left: capacity, once: once}
 	w := bits.NewWriter(sink)
 	tr := make([]string, 0, len(ops))
 	for _, o := range ops {
@@ -436,7 +450,7 @@ func corrExt2(r *hx.Rng, n int, id *int) {
 		if i%3 != 0 {
 			capacity = r.Range(0, len(full)+1)
 		}
-		b, tr, _ := runEBSPX(capacity, ops)
+		b, tr, _ := runEBSPXOnce(capacity, ops, i%4 == 1) // a transient failure looks the same to a writer that keeps its first error
 		emitX("E", capacity, ops, b, tr)
 		// the reader on what was written (whatever it is) with the matching ops and a few more, to the end and beyond
 		rops := make([]string, 0, len(ops)+6)
@@ -460,7 +474,7 @@ func corrExt2(r *hx.Rng, n int, id *int) {
 		if i%3 != 1 {
 			pcap = r.Range(0, len(pfull)+1)
 		}
-		pb, ptr, _ := runPlainX(pcap, pops)
+		pb, ptr, _ := runPlainXOnce(pcap, pops, i%4 == 2)
 		emitX("P", pcap, pops, pb, ptr)
 		// readers on arbitrary / zero-heavy bytes, wide ops, reads continuing after the first error
 		var data []byte
@@ -506,7 +520,14 @@ func searchExt2(r *hx.Rng) int {
 	q.trailing()
 	raw := q.bytes()
 	wops := append(append([]wop{}, ops...), wop{k: 't'})
-	esc, _, werr := runEBSPX(-1, wops)
+	junk := make([]wop, len(wops)) // the same ops with junk above the width: must be masked, not spilled
+	for i, o := range wops {
+		if o.k == 'b' && o.w < 64 && r.Bool() {
+			o.v |= r.U64() << uint(o.w)
+		}
+		junk[i] = o
+	}
+	esc, _, werr := runEBSPX(-1, junk)
 	evals++
 	if werr != nil || !bytes.Equal(esc, naiveEscape(raw)) {
 		fail("bits.EBSPWriter", "wide-not-standard-escape", opsString(wops), fmt.Sprintf("output %s (err %v) is not the escaping %s of the packed codes", hx.Hex(esc), werr, hx.Hex(naiveEscape(raw))))
@@ -586,7 +607,7 @@ func searchExt2(r *hx.Rng) int {
 		xops := genWopsX(r, r.Bool())
 		full, _, ferr := runEBSPX(-1, xops)
 		k := r.Range(0, len(full)+1)
-		got, _, gerr := runEBSPX(k, xops)
+		got, _, gerr := runEBSPXOnce(k, xops, r.Bool()) // transient or permanent failure: same for a sticky writer
 		evals++
 		want := full
 		if k < len(full) {
@@ -600,7 +621,7 @@ func searchExt2(r *hx.Rng) int {
 		pops := genPlainWopsX(r)
 		pfull, _, _ := runPlainX(-1, pops)
 		k = r.Range(0, len(pfull)+1)
-		pgot, _, pgerr := runPlainX(k, pops)
+		pgot, _, pgerr := runPlainXOnce(k, pops, r.Bool())
 		evals++
 		want = pfull
 		if k < len(pfull) {
@@ -617,13 +638,17 @@ func searchExt2(r *hx.Rng) int {
 		data := r.Bytes(r.Range(0, 6), nil)
 		er := bits.NewEBSPReader(bytes.NewReader(data))
 		pr := bits.NewReader(bytes.NewReader(data))
+		var le, lp uint
 		for er.AccError() == nil {
-			er.Read(r.Range(1, 40))
+			le = er.Read(r.Range(1, 40))
 		}
 		for pr.AccError() == nil {
-			pr.Read(r.Range(1, 40))
+			lp = pr.Read(r.Range(1, 40))
 		}
 		evals++
+		if le != 0 || lp != 0 {
+			fail("bits.EBSPReader.Read", "failing-read-nonzero", hx.Hex(data), fmt.Sprintf("the read that ran into the end returned %x / %x instead of 0", le, lp))
+		}
 		if er.NrBytesRead() != len(data) || pr.NrBytesRead() != len(data) {
 			fail("bits.EBSPReader.NrBytesRead", "eof-position", hx.Hex(data), fmt.Sprintf("after the failing read NrBytesRead = %d / %d, input has %d bytes", er.NrBytesRead(), pr.NrBytesRead(), len(data)))
 		}
